@@ -458,6 +458,13 @@ def make_resolver(repo, module, private_only: bool = True, also: Optional[Set[st
             k, fn = r
             if f.attr in k.properties:
                 return None
+            # dynamic dispatch: a method overridden in a subclass of the receiver's class is not a single target
+            for sub in repo.subclasses(cls.name):
+                if sub is not cls and f.attr in sub.methods and sub.methods[f.attr] is not fn:
+                    return None
+            body = A.strip_docstring(fn.body)
+            if len(body) == 1 and isinstance(body[0], ast.Raise):
+                return None     # abstract
             decs = [A.dotted(d) or "" for d in fn.decorator_list]
             if any(d in ("staticmethod", "classmethod") for d in decs):
                 return None
